@@ -496,6 +496,8 @@ type c15World struct {
 	// Dec maps a probe name to "reason/filter-list-id".
 	Dec   map[string]string
 	Extra []string
+	// Engines identifies the engine objects in use (observed, not asserted).
+	Engines string
 }
 
 // c15UnchangedDiffs lists what differs for list id between before and after,
